@@ -298,7 +298,13 @@ func GenDialogue(g *vh.Gen, c Cfg, pool []string, o Opts) []byte {
 				a = tos[g.Intn(len(tos))] // duplicate recipient
 			}
 			tos = append(tos, a)
-			line(cmdCase(g, "RCPT") + " " + cmdCase(g, "TO:") + g.Pick2s("", "", " ") + "<" + a + ">")
+			rl := cmdCase(g, "RCPT") + " " + cmdCase(g, "TO:") + g.Pick2s("", "", " ") + "<" + a + ">"
+			if g.Chance(0.06) { // ESMTP parameters behind the forward-path (one reply is owed, whatever they are)
+				for k := 1 + g.Intn(3); k > 0; k-- {
+					rl += " " + g.Pick("NOTIFY=NEVER", "NOTIFY=SUCCESS,FAILURE", "ORCPT=rfc822;x@y.org", "SIZE=1024", "BODY=8BITMIME", "X=1", "FOO", "=", "")
+				}
+			}
+			line(rl)
 			if g.Chance(0.05) {
 				garbage()
 			}
